@@ -4,8 +4,11 @@
 (* The schema of this module (rendered by the harness):                           *)
 (*   doc   := rec+                                                                *)
 (*   rec   := @id:int (required) @flag:boolean? @ucode:code?                       *)
-(*            name:string, tags:list of int {0,2}, code?, opt?, mark?, price?,     *)
-(*            para?, (a:int | b:string)*                                           *)
+(*            name:string, tags:list of int {0,2}, code?, opt?, mark?, alt?,       *)
+(*            price?, para?, (a:int | b:string)*                                   *)
+(*   alt   := @kind:boolean (required); XSD 1.1: the type alternative             *)
+(*            test="@kind = 'true'" requires one child x:string, otherwise no      *)
+(*            content (documents with alt "full" exist for the 1.1 schema only)    *)
 (*   code  := union(int, string) restricted by pattern [0-9]{3}|[a-z]{2,5}          *)
 (*   opt   := nillable int                                                         *)
 (*   mark  := empty content with @lvl:int?                                         *)
@@ -41,8 +44,8 @@ RECURSIVE AllAB(_)
 AllAB(w) == w = <<>> \/ (Head(w) \in {"a", "b"} /\ AllAB(Tail(w)))
 Opt(w, x) == IF w # <<>> /\ Head(w) = x THEN Tail(w) ELSE w
 RecContentOK(w) == /\ w # <<>> /\ Head(w) = "name"
-                   /\ AllAB(Opt(Opt(Opt(Opt(Opt(Opt(Opt(Tail(w), "tags"), "tags"), "code"), "opt"),
-                                        "mark"), "price"), "para"))
+                   /\ AllAB(Opt(Opt(Opt(Opt(Opt(Opt(Opt(Opt(Tail(w), "tags"), "tags"), "code"), "opt"),
+                                        "mark"), "alt"), "price"), "para"))
 
 NodeOK(ns, n) ==
   CASE n.name = "doc"  -> /\ n.attrs = {} /\ n.text = "-"
@@ -61,6 +64,10 @@ NodeOK(ns, n) ==
                              ELSE ("nil" \in AttrNames(n) => AttrVal(n, "nil") = "f") /\ n.text \in {"i", "u3"}
     [] n.name = "mark" -> /\ AttrNames(n) \subseteq {"lvl"} /\ n.text = "-" /\ NoKids(ns, n)
                           /\ ("lvl" \in AttrNames(n) => AttrVal(n, "lvl") = "i")
+    [] n.name = "alt"  -> /\ AttrNames(n) = {"kind"} /\ AttrVal(n, "kind") \in {"bool", "boolF"} /\ n.text = "-"
+                          /\ LET ks == KidsOf(ns, n.path) IN
+                               IF AttrVal(n, "kind") = "bool" THEN Len(ks) = 1 /\ ks[1].name = "x" ELSE ks = <<>>
+    [] n.name = "x"    -> n.attrs = {} /\ n.text \in {"s", "i", "d", "x", "-"} /\ NoKids(ns, n)
     [] n.name = "price" -> /\ AttrNames(n) = {"cur"} /\ n.text \in {"d", "i"} /\ NoKids(ns, n)
     [] n.name = "para" -> /\ n.attrs = {} /\ \A k \in DOMAIN KidsOf(ns, n.path) : KidsOf(ns, n.path)[k].name = "em"
     [] n.name = "em"   -> n.attrs = {} /\ NoKids(ns, n)
@@ -75,13 +82,15 @@ Valid(ns) == /\ ns # <<>> /\ ns[1].path = <<>> /\ ns[1].name = "doc"
 (* generator of valid documents *)
 Node(p, name, attrs, text) == [path |-> p, name |-> name, attrs |-> attrs, text |-> text]
 RecCfg == [flag : BOOLEAN, tags : 0..2, code : {"-", "u3", "ua"}, ucode : {"-", "u3", "ua"},
-           opt : {"-", "i", "nil"}, mark : {"-", "plain", "lvl"}, price : BOOLEAN, para : 0..2,
+           opt : {"-", "i", "nil"}, mark : {"-", "plain", "lvl"}, alt : {"-", "plain", "full"},
+           price : BOOLEAN, para : 0..2,
            ab : {<<>>, <<"a">>, <<"b">>, <<"a", "a">>, <<"a", "b">>, <<"b", "a">>, <<"a", "b", "a">>,
                  <<"b", "a", "b">>, <<"a", "a", "b">>}]
 RECURSIVE Seq2Nodes(_, _, _)
 Seq2Nodes(p, ks, i) == IF i > Len(ks) THEN <<>> ELSE
    <<Node(Append(p, i), ks[i][1], ks[i][2], ks[i][3])>>
-   \o (IF ks[i][1] = "para" THEN [k \in 1..ks[i][4] |-> Node(Append(Append(p, i), k), "em", {}, "s")] ELSE <<>>)
+   \o (IF ks[i][1] = "para" THEN [k \in 1..ks[i][4] |-> Node(Append(Append(p, i), k), "em", {}, "s")]
+       ELSE IF ks[i][1] = "alt" THEN [k \in 1..ks[i][4] |-> Node(Append(Append(p, i), k), "x", {}, "s")] ELSE <<>>)
    \o Seq2Nodes(p, ks, i + 1)
 RecKids(c) == <<<<"name", {}, "s", 0>>>>
               \o [i \in 1..c.tags |-> <<"tags", {}, "l", 0>>]
@@ -92,6 +101,9 @@ RecKids(c) == <<<<"name", {}, "s", 0>>>>
               \o (CASE c.mark = "-" -> <<>>
                     [] c.mark = "plain" -> <<<<"mark", {}, "-", 0>>>>
                     [] c.mark = "lvl" -> <<<<"mark", {<<"lvl", "i">>}, "-", 0>>>>)
+              \o (CASE c.alt = "-" -> <<>>
+                    [] c.alt = "plain" -> <<<<"alt", {<<"kind", "boolF">>}, "-", 0>>>>
+                    [] c.alt = "full" -> <<<<"alt", {<<"kind", "bool">>}, "-", 1>>>>)
               \o (IF c.price THEN <<<<"price", {<<"cur", "s">>}, "d", 0>>>> ELSE <<>>)
               \o (IF c.para > 0 THEN <<<<"para", {}, "m", c.para - 1>>>> ELSE <<>>)
               \o [i \in DOMAIN c.ab |-> <<c.ab[i], {}, IF c.ab[i] = "a" THEN "i" ELSE "s", 0>>]
@@ -110,5 +122,6 @@ AllRecs(i) == IF i > Len(recs) THEN <<>> ELSE RecNodes(<<i>>, recs[i]) \o AllRec
 Doc == <<Node(<<>>, "doc", {}, "-")>> \o AllRecs(1)
 GeneratedAreValid == Valid(Doc)
 Emit == PrintT(ToJson([nodes |-> Doc,
-                       contiguous |-> \A i \in DOMAIN recs : Contiguous(recs[i].ab)]))
+                       contiguous |-> \A i \in DOMAIN recs : Contiguous(recs[i].ab),
+                       needs11 |-> \E i \in DOMAIN recs : recs[i].alt # "-"]))
 =============================================================================
